@@ -48,6 +48,12 @@ class CallMixin:
         if len(g.generators) != 1 or g.generators[0].ifs:
             return None
         it = self.ev(g.generators[0].iter, fr)
+        if isinstance(it, Obj):
+            itf, _ = self.index.find_method(it.cls, "__iter__")
+            if itf is not None:
+                it = self.call_function(itf, [it])
+        if isinstance(it, IterObj) and isinstance(it.seq, (AList, SliceView)) and isinstance(it.pos, int) and it.pos == 0:
+            it = it.seq
         if not isinstance(it, (AList, SliceView)):
             return None
         i = z3.Int(fresh_name("qa"))
